@@ -7,16 +7,16 @@ namespace Chewing.TrieCodec
 open Chewing Chewing.Der
 
 theorem child_WF {f : Forest} (hf : f.WF) {s : Nat} {nd : NodeData} (h : f.child s = some nd) :
-    NodeOK nd ∧ 0 < s ∧ s < 65536 := by
+    NodeOK nd ∧ 0 < s ∧ s < 65536 ∧ validCode s = true := by
   induction f with
   | nil => cases h
   | cons t l sub next _ ih =>
-    obtain ⟨h1, h2, _, h4, h5, h6, h7⟩ := hf
+    obtain ⟨h1, h2, hv, _, h4, h5, h6, h7⟩ := hf
     simp only [Forest.child] at h
     split at h
     · rename_i hts
       cases h
-      exact ⟨⟨h4, h5, h6⟩, hts ▸ h1, hts ▸ h2⟩
+      exact ⟨⟨h4, h5, h6⟩, hts ▸ h1, hts ▸ h2, hts ▸ hv⟩
     · exact ih h7 h
 
 theorem filter_toItems_syl (f : Forest) (hf : f.WF) (s' : Nat) :
@@ -27,7 +27,7 @@ theorem filter_toItems_syl (f : Forest) (hf : f.WF) (s' : Nat) :
   induction f with
   | nil => rfl
   | cons t l sub next _ ih =>
-    obtain ⟨_, _, h3, _, _, _, h7⟩ := hf
+    obtain ⟨_, _, _, h3, _, _, _, h7⟩ := hf
     have hsyl : (Item.node t l sub).syl = t := rfl
     simp only [Forest.toItems, List.filter_cons, hsyl, Forest.child]
     by_cases hts : t = s'
